@@ -17,6 +17,7 @@
    S-model (specification): first_by / first_occ = "first appearance order, once".
    Definitions only; proofs are in Deps/Proofs.v. *)
 From DJC Require Import Lib.Base.
+From DJC Require Gen.C04.
 Import Coq.Strings.String.StringSyntax.
 Local Delimit Scope string_scope with string.
 Local Open Scope N_scope.
@@ -349,6 +350,31 @@ Definition postprocess (tags : list mtag) : res (list mtag) :=
 Definition tag_urls (tags : list mtag) : list url :=
   flat_map (fun t : mtag => match fst t with Some u => [u] | None => [] end) tags.
 
+(* src_pattern / href_pattern of _postprocess_media_tags:  (?<![\w-])src="([^"]+)"  /  (?<![\w-])href="([^"]+)"
+   searched in the tag text (str mode: every non-ASCII byte is taken as a word character - exact for letters and
+   digits).  First position where the attribute name starts a new attribute and a non-empty, closed value follows. *)
+Definition is_attr_word (b : N) : bool := is_word b || (b =? 45) || (128 <=? b).
+Definition attr_value (s : str) : option str :=
+  let '(v, r) := span (fun c => negb (c =? 34)) s in
+  match v, r with
+  | _ :: _, 34 :: _ => Some v
+  | _, _ => None
+  end.
+Fixpoint find_attr (name s : str) (prev_ok : bool) : option str :=
+  match s with
+  | [] => None
+  | c :: r =>
+      match (if prev_ok then strip_prefix name s else None) with
+      | Some rest => match attr_value rest with
+                     | Some v => Some v
+                     | None => find_attr name r (negb (is_attr_word c))
+                     end
+      | None => find_attr name r (negb (is_attr_word c))
+      end
+  end.
+Definition url_attr (k : kind) : str := match k with KJs => s2n "src="""%string | KCss => s2n "href="""%string end.
+Definition find_url (k : kind) (tag : str) : option str := find_attr (url_attr k) tag true.
+
 (* _gen_exec_script: the JSON record (lists before sorted(); compared up to permutation) *)
 Record exec := { x_loaded_css : list url; x_loaded_js : list url;
                  x_toload_css : list mtag; x_toload_js : list mtag }.
@@ -464,10 +490,29 @@ Fixpoint strip_ids (fuel : nat) (s : str) : str * nat :=
 Definition attr_len : nat := 22.   (* length " data-djc-id-" + 6 + 3 *)
 Definition attr_css_len : nat := 23.
 
-(* (?: data-djc-css-\w{6}="")?(?: data-djc-id-\w{6}="")* : the rest and the number of bytes matched *)
+(* (?: data-djc-(?:id|css)-\w{6}="")* greedy: the rest and the number of bytes matched *)
+Fixpoint strip_any (fuel : nat) (s : str) : str * nat :=
+  match fuel with
+  | O => (s, O)
+  | S f => match strip_attr attr_id s with
+           | Some r => let '(r', n) := strip_any f r in (r', (attr_len + n)%nat)
+           | None => match strip_attr attr_css s with
+                     | Some r => let '(r', n) := strip_any f r in (r', (attr_css_len + n)%nat)
+                     | None => (s, O)
+                     end
+           end
+  end.
+
+(* which of the two shapes PLACEHOLDER_REGEX has (read from the source by harness/gen_c04.py, anchored in Proofs.v):
+   false: (?: data-djc-css-\w{6}="")?(?: data-djc-id-\w{6}="")*     true: (?: data-djc-(?:id|css)-\w{6}="")* *)
+Definition any_order : bool := Gen.C04.placeholder_any_order.
+
+(* the attribute part: the rest and the number of bytes matched *)
 Definition ph_attrs (s1 : str) : str * nat :=
-  let '(s2, n1) := match strip_attr attr_css s1 with Some r => (r, attr_css_len) | None => (s1, O) end in
-  let '(s3, n2) := strip_ids (length s2) s2 in (s3, (n1 + n2 * attr_len)%nat).
+  if any_order then strip_any (length s1) s1
+  else
+    let '(s2, n1) := match strip_attr attr_css s1 with Some r => (r, attr_css_len) | None => (s1, O) end in
+    let '(s3, n2) := strip_ids (length s2) s2 in (s3, (n1 + n2 * attr_len)%nat).
 
 Definition match_placeholder (s : str) : option (kind * nat) :=
   match strip_prefix css_ph_open s with
@@ -490,15 +535,22 @@ Definition match_placeholder (s : str) : option (kind * nat) :=
       end
   end.
 
-(* the placeholder as the template tags write it, with the attributes the HTML post-processing
-   may add when the placeholder is a root element of `ids` nested components *)
+(* the placeholder as the template tags write it, with the attributes the HTML post-processing adds when the
+   placeholder is a root element of components: (true, h) = data-djc-css-h, (false, i) = data-djc-id-i, in the
+   order in which they stand in the document *)
 Definition id_attr (id : str) : str := attr_id ++ id ++ attr_end.
 Definition css_attr (id : str) : str := attr_css ++ id ++ attr_end.
-Definition emit_placeholder (k : kind) (css : option str) (ids : list str) (slash : bool) : str :=
-  let attrs := (match css with Some c => css_attr c | None => [] end) ++ flat_map id_attr ids in
+Definition attr_bytes (a : bool * str) : str := if fst a then css_attr (snd a) else id_attr (snd a).
+Definition emit_placeholder (k : kind) (attrs : list (bool * str)) (slash : bool) : str :=
   match k with
-  | KCss => css_ph_open ++ attrs ++ (if slash then [47] else []) ++ [62]
-  | KJs => js_ph_open ++ attrs ++ js_ph_close
+  | KCss => css_ph_open ++ flat_map attr_bytes attrs ++ (if slash then [47] else []) ++ [62]
+  | KJs => js_ph_open ++ flat_map attr_bytes attrs ++ js_ph_close
+  end.
+(* at most one css attribute, in front of the id attributes *)
+Definition css_first (attrs : list (bool * str)) : bool :=
+  match attrs with
+  | (true, _) :: r => forallb (fun a : bool * str => negb (fst a)) r
+  | _ => forallb (fun a : bool * str => negb (fst a)) attrs
   end.
 
 (* a render id / css hash as the attribute regex wants it: \w{6} *)
@@ -598,10 +650,11 @@ Definition render_deps (ser : tok -> str) (tbl : table) (t : rtype) (content : s
 (* vocabulary of the theorems about the assembled output                                     *)
 (* ---------------------------------------------------------------------------------------- *)
 (* a placeholder as it reaches render_dependencies *)
-Record phspec := { ph_kind : kind; ph_css : option str; ph_ids : list str; ph_slash : bool }.
-Definition ph_bytes (p : phspec) : str := emit_placeholder (ph_kind p) (ph_css p) (ph_ids p) (ph_slash p).
+Record phspec := { ph_kind : kind; ph_attrl : list (bool * str); ph_slash : bool }.
+Definition ph_bytes (p : phspec) : str := emit_placeholder (ph_kind p) (ph_attrl p) (ph_slash p).
+(* attribute values are \w{6}; with the older pattern the css attribute must come first *)
 Definition ph_wfb (p : phspec) : bool :=
-  forallb is_word6 (match ph_css p with Some c => c :: ph_ids p | None => ph_ids p end).
+  forallb (fun a : bool * str => is_word6 (snd a)) (ph_attrl p) && (any_order || css_first (ph_attrl p)).
 Definition ph_wf (p : phspec) : Prop := ph_wfb p = true.
 
 (* a marker-free document: text, placeholder, text, placeholder, ..., text *)
@@ -729,6 +782,11 @@ Definition ph_case := (str * str)%type.
 Definition check_ph (c : ph_case) : bool :=
   let '(s, out) := c in
   let '(o, _, _) := subst_placeholders s [74] [67] in str_eqb out o.
+
+(* (kind, tag text, what src_pattern / href_pattern .search found) *)
+Definition url_case := (kind * str * option str)%type.
+Definition check_url (c : url_case) : bool :=
+  let '(k, tag, r) := c in option_eqb str_eqb r (find_url k tag).
 
 (* 2. pipeline: outcome of _process_dep_declarations *)
 Inductive outcome :=
